@@ -37,3 +37,5 @@ import LapyVerif.Bridge.Poisson
 #print axioms LapyVerif.Bridge.census_FemTriaAniso_pcCount
 #print axioms LapyVerif.Bridge.census_FemTet_pcCount
 #print axioms LapyVerif.Bridge.census_PoissonSys_pcCount
+#print axioms LapyVerif.Bridge.poisson_traced_spec
+#print axioms LapyVerif.Bridge.poisson_traced_matrix
